@@ -3,6 +3,7 @@ package c05
 import (
 	"bufio"
 	"bytes"
+	"errors"
 	"fmt"
 	"io"
 	"net"
@@ -56,6 +57,9 @@ type Probe struct {
 	Headers bool   `json:",omitempty"` // probe carries own X-A / cookie / Accept headers
 	NewConn bool   `json:",omitempty"`
 	Method  string
+	// Rejected: the probe is refused by the server before routing (it announces a body beyond Config.BodyLimit): its
+	// answer is produced by the application's ErrorHandler, which observes the context it is given
+	Rejected bool `json:",omitempty"`
 }
 
 type Case struct {
@@ -66,7 +70,19 @@ type Case struct {
 }
 
 func newApp(c Case) *fiber.App {
-	app := fiber.New(fiber.Config{Views: vk.Views{}, PassLocalsToViews: true, Immutable: c.Immutable})
+	app := fiber.New(fiber.Config{Views: vk.Views{}, PassLocalsToViews: true, Immutable: c.Immutable, ErrorHandler: func(ctx fiber.Ctx, err error) error {
+		if ctx.Get("X-Probe-EH") != "1" {
+			return fiber.DefaultErrorHandler(ctx, err)
+		}
+		// an error page that shows (or a log line that records) what the context says about the refused request
+		code := fiber.StatusInternalServerError
+		var fe *fiber.Error
+		if errors.As(err, &fe) {
+			code = fe.Code
+		}
+		obs := vk.Observe(ctx, "lk", "other")
+		return ctx.Status(code).SendString(strings.Join(obs, "\n"))
+	}})
 	// template variables every page gets: one long-lived map of the application, bound by whoever renders
 	siteVars := fiber.Map{"site": "example.org"}
 	app.All("/dirty/:p1/:p2?", func(ctx fiber.Ctx) error {
@@ -243,6 +259,9 @@ func (p Probe) wire() []byte {
 	}
 	if ck != "" {
 		hdr += "Cookie: " + ck + "\r\n"
+	}
+	if p.Rejected {
+		hdr += "X-Probe-EH: 1\r\nContent-Length: 99999999\r\n" // the default BodyLimit is 4 MiB: refused with 413 once the header is read
 	}
 	return []byte(fmt.Sprintf("%s /probe/P1%s?%s HTTP/1.1\r\nHost: probe.test\r\n%s\r\n", p.Method, p2, q, hdr))
 }
@@ -448,6 +467,10 @@ func genCase(t *rapid.T) Case {
 		Method: rapid.SampledFrom([]string{"GET", "GET", "POST"}).Draw(t, "pm")}
 	if rapid.IntRange(0, 1).Draw(t, "pflash") == 0 {
 		c.Probe.Flash = genFlash(t, "pf")
+	}
+	if rapid.IntRange(0, 5).Draw(t, "prej") == 0 {
+		c.Probe.Rejected = true
+		c.Probe.Method = rapid.SampledFrom([]string{"POST", "PUT", "PROPFIND", "BREW"}).Draw(t, "prm") // also methods outside Config.RequestMethods
 	}
 	return c
 }
